@@ -72,8 +72,8 @@ Qed.
 (* ------------------------------------------------------------------------------------------- *)
 (* extract_python_block                                                                         *)
 (* ------------------------------------------------------------------------------------------- *)
-Lemma py_new_go_bounds : forall start rest acc k c n,
-  py_new_go start rest acc k = POk (c, n) -> k < n /\ n <= k + length rest.
+Lemma py_new_go_bounds : forall fx start rest acc k c n,
+  py_new_go fx start rest acc k = POk (c, n) -> k < n /\ n <= k + length rest.
 Proof.
   induction rest as [|line rest IH]; intros acc k c n H; simpl in H; [discriminate|].
   destruct (String.eqb (strip line) "@endpy").
@@ -81,7 +81,7 @@ Proof.
   - apply IH in H. simpl. lia.
 Qed.
 
-Lemma py_new_go_allowed : forall b start rest acc k, allowed b (py_new_go start rest acc k).
+Lemma py_new_go_allowed : forall fx b start rest acc k, allowed b (py_new_go fx start rest acc k).
 Proof.
   induction rest as [|line rest IH]; intros; simpl; auto.
   destruct (String.eqb (strip line) "@endpy"); simpl; auto.
@@ -96,11 +96,11 @@ Proof.
 Qed.
 
 (* new syntax: 1 <= consumed <= len - start; legacy syntax: an unclosed block reports one more *)
-Lemma extract_python_block_bounds : forall lines start c n,
-  extract_python_block lines start = POk (c, n) ->
+Lemma extract_python_block_bounds : forall fx lines start c n,
+  extract_python_block_v fx lines start = POk (c, n) ->
   1 <= n /\ n <= S (length lines - start).
 Proof.
-  intros lines start c n H. unfold extract_python_block in H.
+  intros fx lines start c n H. unfold extract_python_block_v in H.
   destruct (nth_error lines start) as [line|] eqn:E; [|discriminate].
   assert (L : start < length lines) by (apply nth_error_Some; rewrite E; discriminate).
   destruct (startswith (strip line) "<<py").
@@ -108,43 +108,43 @@ Proof.
     pose proof (py_old_go_bounds (skipn (S start) lines) None [] 1) as B.
     rewrite skipn_length in B. rewrite H1 in B. cbn [snd] in B. lia.
   - destruct (startswith (strip line) "@py"); [|discriminate].
-    unfold extract_py_new_syntax in H. rewrite E in H.
+    unfold extract_py_new_syntax_v in H. rewrite E in H.
     destruct (negb (String.eqb (strip line) "@py:")); [discriminate|].
     apply py_new_go_bounds in H. rewrite skipn_length in H. lia.
 Qed.
 
-Lemma extract_py_new_bounds : forall lines start c n,
-  extract_py_new_syntax lines start = POk (c, n) -> 1 <= n /\ n <= length lines - start.
+Lemma extract_py_new_bounds : forall fx lines start c n,
+  extract_py_new_syntax_v fx lines start = POk (c, n) -> 1 <= n /\ n <= length lines - start.
 Proof.
-  intros lines start c n H. unfold extract_py_new_syntax in H.
+  intros fx lines start c n H. unfold extract_py_new_syntax_v in H.
   destruct (nth_error lines start) as [line|] eqn:E; [|discriminate].
   assert (L : start < length lines) by (apply nth_error_Some; rewrite E; discriminate).
   destruct (negb (String.eqb (strip line) "@py:")); [discriminate|].
   apply py_new_go_bounds in H. rewrite skipn_length in H. lia.
 Qed.
 
-Lemma extract_python_block_recok : forall b lines i l,
-  nth_error lines i = Some l -> recok b (extract_python_block lines i).
+Lemma extract_python_block_recok : forall fx b lines i l,
+  nth_error lines i = Some l -> recok b (extract_python_block_v fx lines i).
 Proof.
-  intros b lines i l E. split.
-  - unfold extract_python_block. rewrite E.
+  intros fx b lines i l E. split.
+  - unfold extract_python_block_v. rewrite E.
     destruct (startswith (strip l) "<<py"); simpl; auto.
     destruct (startswith (strip l) "@py"); simpl; auto.
-    unfold extract_py_new_syntax. rewrite E.
+    unfold extract_py_new_syntax_v. rewrite E.
     destruct (negb (String.eqb (strip l) "@py:")); simpl; auto. apply py_new_go_allowed.
   - intros c k H. apply extract_python_block_bounds in H. lia.
 Qed.
 
-Lemma extract_python_block_internal_iff : forall lines start e,
-  extract_python_block lines start = PInternal e -> length lines <= start /\ e = IIndex.
+Lemma extract_python_block_internal_iff : forall fx lines start e,
+  extract_python_block_v fx lines start = PInternal e -> length lines <= start /\ e = IIndex.
 Proof.
-  intros lines start e H. unfold extract_python_block in H.
+  intros fx lines start e H. unfold extract_python_block_v in H.
   destruct (nth_error lines start) as [line|] eqn:E.
   - exfalso. destruct (startswith (strip line) "<<py"); [discriminate|].
     destruct (startswith (strip line) "@py"); [|discriminate].
-    unfold extract_py_new_syntax in H. rewrite E in H.
+    unfold extract_py_new_syntax_v in H. rewrite E in H.
     destruct (negb (String.eqb (strip line) "@py:")); [discriminate|].
-    pose proof (py_new_go_allowed false start (skipn (S start) lines) [] 1) as A.
+    pose proof (py_new_go_allowed fx false start (skipn (S start) lines) [] 1) as A.
     rewrite H in A. simpl in A. discriminate.
   - apply nth_error_None in E. inversion H. auto.
 Qed.
@@ -219,8 +219,8 @@ Proof.
   intros lines start t n H. unfold loop_body in H.
   destruct (loop_collect start (skipn start lines) start false 0 [] "" "")
     as [[[[[found i] raw] var] coll]|d|e|] eqn:E; simpl in H; try discriminate.
-  match type of H with context [body_go ?a ?b ?c ?d ?e 0 0 [] []] =>
-    destruct (body_go a b c d e 0 0 [] []) as [[ct chs]|d0|e0|] end; simpl in H; try discriminate.
+  match type of H with context [body_go ?z ?a ?b ?c ?d ?e 0 0 [] []] =>
+    destruct (body_go z a b c d e 0 0 [] []) as [[ct chs]|d0|e0|] end; simpl in H; try discriminate.
   destruct found; [|discriminate]. inversion H; subst.
   apply loop_collect_bounds in E. destruct E as [_ E]. specialize (E eq_refl).
   rewrite skipn_length in E. split; [eauto|].
@@ -370,7 +370,7 @@ Proof.
   destruct (startswith (strip line) "#"); [apply stepok_next1|].
   destruct (is_py_line (strip line) && has_cur st).
   { apply stepok_bind; [apply flush_cur_allowed|]. intros st1 _.
-    destruct (extract_python_block_recok b lines i line Hn) as [A P].
+    destruct (extract_python_block_recok fixed b lines i line Hn) as [A P].
     apply stepok_bind; [exact A|]. intros [c k] E. split; [exact I|].
     intros st' k' E'. inversion E'; subst. simpl. eapply P; eauto. }
   destruct (startswith (strip line) "@input" && has_cur st).
@@ -385,7 +385,9 @@ Proof.
   { apply stepok_bind; [apply flush_cur_allowed|]. intros; apply stepok_next1. }
   destruct (startswith (strip line) "~ " && has_cur st).
   { apply stepok_bind; [apply flush_cur_allowed|]. intros st1 _. split; [exact I|].
-    intros st' k E. inversion E; subst. unfold py_statement. apply Hemx. }
+    intros st' k E. inversion E; subst. unfold cond_py_statement.
+    destruct (fixed && (1 <? snd (py_statement lf lines i (drop 2 (strip line))))); cbn [snd];
+      unfold py_statement; apply Hemx. }
   destruct (is_if_line (strip line) && negb (i =? start) && has_cur st) eqn:Eif.
   { apply andb_prop in Eif. destruct Eif as [Eif _]. apply andb_prop in Eif. destruct Eif as [_ Ene].
     apply negb_true_iff in Ene. apply Nat.eqb_neq in Ene. destruct (Hc Ene) as [A P].
@@ -497,12 +499,12 @@ Lemma body_step_ok : forall ded j line content chs,
   nth_error ded j = Some line ->
   (is_if_line (strip line) = true -> recok b (rec_cond ded j)) ->
   (is_for_line (strip line) = true -> recok b (rec_loop ded j)) ->
-  bstepok (body_step lf rec_cond rec_loop ded j line content chs).
+  bstepok (body_step fixed lf rec_cond rec_loop ded j line content chs).
 Proof.
   intros ded j line content chs Hn Hc Hl. unfold body_step. cbv zeta.
   destruct (startswith (strip line) "#"); [apply bstepok_1|].
   destruct (is_py_line (strip line)).
-  { destruct (extract_python_block_recok b ded j line Hn) as [A P].
+  { destruct (extract_python_block_recok fixed b ded j line Hn) as [A P].
     apply bstepok_bind; [exact A|]. intros [c k] E. split; [exact I|].
     intros c' h' k' E'. inversion E'; subst. simpl. eapply P; eauto. }
   destruct (startswith (strip line) "@input").
@@ -529,13 +531,13 @@ Lemma body_go_allowed : forall ded rest j skip content chs,
   skipn j ded = rest ->
   (forall j l, nth_error ded j = Some l -> is_if_line (strip l) = true -> recok b (rec_cond ded j)) ->
   (forall j l, nth_error ded j = Some l -> is_for_line (strip l) = true -> recok b (rec_loop ded j)) ->
-  allowed b (body_go lf rec_cond rec_loop ded rest j skip content chs).
+  allowed b (body_go fixed lf rec_cond rec_loop ded rest j skip content chs).
 Proof.
   induction rest as [|line rest IH]; intros j skip content chs Hs Hc Hl; cbn [body_go]; [exact I|].
   destruct (skipn_cons_nth _ _ _ _ _ Hs) as [Hn Hs'].
   destruct skip as [|k]; [|apply IH; auto].
   destruct (body_step_ok ded j line content chs Hn) as [A P]; eauto.
-  destruct (body_step lf rec_cond rec_loop ded j line content chs) as [[[c h] [|k]]|d|e|].
+  destruct (body_step fixed lf rec_cond rec_loop ded j line content chs) as [[[c h] [|k]]|d|e|].
   - specialize (P c h 0 eq_refl). lia.
   - apply IH; auto.
   - exact I.
@@ -911,10 +913,10 @@ Lemma contract_all : forall fixed cap lf lines start,
                n <= length lines - start).
 Proof.
   intros. repeat split; intros.
-  - apply extract_python_block_bounds in H; lia.
-  - apply extract_python_block_bounds in H; lia.
-  - apply extract_py_new_bounds in H; lia.
-  - apply extract_py_new_bounds in H; lia.
+  - unfold extract_python_block in H. apply extract_python_block_bounds in H; lia.
+  - unfold extract_python_block in H. apply extract_python_block_bounds in H; lia.
+  - unfold extract_py_new_syntax in H. apply extract_py_new_bounds in H; lia.
+  - unfold extract_py_new_syntax in H. apply extract_py_new_bounds in H; lia.
   - apply extract_conditional_block_f_bounds in H; lia.
   - apply extract_conditional_block_f_bounds in H; lia.
   - apply extract_loop_block_f_bounds in H; lia.
@@ -940,8 +942,8 @@ Lemma never_out_of_fuel_all : forall fixed cap lf lines start,
 Proof.
   intros fixed cap lf lines start H1 H2. apply lf_no_fuel_allowed in H1. repeat split.
   - destruct (nth_error lines start) as [l|] eqn:E.
-    + apply allowed_true_no_fuel. eapply (proj1 (extract_python_block_recok true lines start l E)).
-    + unfold extract_python_block. rewrite E. discriminate.
+    + apply allowed_true_no_fuel. eapply (proj1 (extract_python_block_recok true true lines start l E)).
+    + unfold extract_python_block, extract_python_block_v. rewrite E. discriminate.
   - apply allowed_true_no_fuel. apply extract_conditional_block_v_ok; auto.
   - intros (l0 & Hn & Hf). apply allowed_true_no_fuel. eapply extract_loop_block_v_ok; eauto.
   - intros indent. apply allowed_true_no_fuel. apply extract_join_allowed. apply H1.
@@ -956,7 +958,7 @@ Lemma total_all : forall cap lf lines start,
 Proof.
   intros cap lf lines start H1 H2. repeat split.
   - intros L. apply nth_error_Some in L. destruct (nth_error lines start) as [l|] eqn:E; [|congruence].
-    apply allowed_false_ok_or_diag. eapply (proj1 (extract_python_block_recok false lines start l E)).
+    apply allowed_false_ok_or_diag. eapply (proj1 (extract_python_block_recok true false lines start l E)).
   - apply allowed_false_ok_or_diag. apply extract_conditional_block_v_ok; auto.
   - intros (l0 & Hn & Hf). apply allowed_false_ok_or_diag. eapply extract_loop_block_v_ok; eauto.
   - intros indent. apply allowed_false_ok_or_diag. apply extract_join_allowed. apply H1.
